@@ -51,7 +51,7 @@ type ccase struct {
 var causes = []string{
 	"notification", "hold-timer", "keepalive-send-failure",
 	"malformed-update:length-sum", "malformed-update:as-path-segment", "malformed-update:truncated", "malformed-update:mp-reach",
-	"bad-marker", "unknown-type", "unexpected-open",
+	"bad-marker", "unknown-type", "bad-notification", "unexpected-open",
 	"dispose-peer", "manual-stop", "automatic-stop", "cease",
 }
 
@@ -90,6 +90,9 @@ func hostile(cause string, o wire.Options) []byte {
 		return m
 	case "unknown-type":
 		return wire.Frame(9, nil)
+	case "bad-notification":
+		// a NOTIFICATION whose error code does not exist: a message that does not decode, without an RFC error of its own
+		return wire.Frame(wire.TypeNotification, []byte{9, 7})
 	}
 	return nil
 }
@@ -129,7 +132,7 @@ func genUpdates(cfg sessgen.Cfg, n int, idx int) []sessgen.UpdSpec {
 // exitPath names the handler of establishedState a cause ends in.
 func exitPath(cause string) string {
 	switch {
-	case strings.HasPrefix(cause, "malformed-update:"), cause == "bad-marker", cause == "unknown-type":
+	case strings.HasPrefix(cause, "malformed-update:"), cause == "bad-marker", cause == "unknown-type", cause == "bad-notification":
 		return "decode-error"
 	case cause == "dispose-peer":
 		return "manual-stop"
